@@ -2,6 +2,15 @@ from vf.runner import Entry
 PROPERTY = "C16"
 HARNESS = "C16.cpp"
 SOURCES = ["src/monitoring/OnlineAverage.cpp", "src/monitoring/OnlineVariance.cpp"]
+CLAIM = ("OnlineAverage / OnlineVariance / RingOfEigenVector: (a) inductive step - from an ARBITRARY valid state (symbolic "
+         "fill level, replacement index, window contents) one update() re-establishes the representation invariant and the reported "
+         "average / availability / unbiased variance equal those of the logical window, and reset() returns to the empty valid state, "
+         "which covers histories of any length; (b) bounded histories with a reset/clear at every position, symbolic samples")
+BOUNDS = dict(quick="window W in {1,2,3,5}, precision in {0.1,1e-3} (multiplier check: all six precisions), histories of 2W+2 updates with one reset at any position; ring capacity 1..5, 2cap+2 appends with one clear at any position; |value|/precision <= 1e8",
+              thorough="W in {1,2,3,4,5,8,16}, all six precisions; ring capacity 1..16")
+ASSUMPTIONS = ["exact domain: doubles read as reals, long long arithmetic as mathematical integers (the nsw flag makes overflow UB; |value|/precision <= 1e8 keeps sums in range)",
+               "inductive pre-state installed through member access (index_, data_, sumOfData_, squaredData_, sumOfSquaredData_)"]
+OUTSIDE = ["rounding of the final double division", "W up to 64 (size-generic code; bounded by what was executed)"]
 PRECS = [1.0, 0.5, 0.1, 1e-3, 1e-5, 1e-6]
 
 def entries(tier):
